@@ -233,8 +233,5 @@ def oracle_constants():
 
 
 ORACLES = dict(conform=oracle_conform, constants=oracle_constants)
-try:
-    from checks import realtier as _rt
-    ORACLES.update(_rt.ORACLES)
-except Exception:
-    pass
+from checks.realtier import rt_conform, ORACLES as _RT      # noqa: E402
+ORACLES.update(_RT)
